@@ -10,72 +10,99 @@ def natsOf (j : Json) : R (List Nat) := do
 
 def labelOf (j : Json) : R Label := do
   match j with
-  | .arr #[.str "mutate"] => pure .mutate
+  | .arr #[.str "mbegin"] => pure .mbegin
+  | .arr #[.str "mwrite", n] => do pure (.mwrite (← asNat n))
+  | .arr #[.str "mend", .bool b] => pure (.mend b)
   | .arr #[.str "spawn"] => pure .spawn
-  | .arr #[.str "change"] => pure .change
   | .arr #[.str "crash"] => pure .crash
   | .arr #[.str "adv", n] => do pure (.adv (← asNat n))
   | .arr #[.str "fault", n] => do pure (.fault (← asNat n))
+  | .arr #[.str "cancel", n] => do pure (.cancel (← asNat n))
   | _ => throw "bad label"
 
-def pcName : Pc → String
+/-- the name of the step a job at this pc is about to execute (`n` = number of state components) -/
+def pcName (n : Nat) : Pc → String
   | .unspawned => "unspawned"
   | .start => "start"
   | .mktemp => "mktemp"
   | .snapshot => "snapshot"
+  | .reading got => if got.length < n then s!"read{got.length}" else "dump"
   | .write _ (_ :: _) => "write"
-  | .write _ [] => "close"
+  | .write _ [] => "release"
+  | .closing _ => "close"
   | .replace _ => "replace"
   | .cleanup _ => "exists"
   | .remove _ => "remove"
   | .unlock .ok => "unlock-ok"
   | .unlock .raised => "unlock-raised"
   | .unlock .cleanupRaised => "unlock-cleanup-raised"
+  | .unlock .cancelled => "unlock-cancelled"
   | .done .ok => "done-ok"
   | .done .raised => "done-raised"
   | .done .cleanupRaised => "done-cleanup-raised"
+  | .done .cancelled => "done-cancelled"
 
 def jnat (n : Nat) : Json := Json.num (JsonNumber.fromNat n)
 def jnats (l : List Nat) : Json := Json.arr (l.map jnat).toArray
 
 /-- the name of the step a label executes in state `s` -/
 def stepName (s : Sys) : Label → String
-  | .mutate => "mutate"
+  | .mbegin => "mbegin"
+  | .mwrite c => s!"mwrite{c}"
+  | .mend true => "mend+save"
+  | .mend false => "mend"
   | .spawn => "spawn"
-  | .change => "change"
   | .crash => "crash"
-  | .adv j => s!"{j}:{pcName (s.jobs j)}"
-  | .fault j => s!"{j}:{pcName (s.jobs j)}!"
+  | .adv j => s!"{j}:{pcName s.mem.length (s.jobs j)}"
+  | .fault j => s!"{j}:{pcName s.mem.length (s.jobs j)}!"
+  | .cancel j => s!"{j}:cancel"
 
 /-- run, collecting step names; stops at the first label that is not enabled -/
-def runTrace (locked : Bool) (snap : Nat → Content) :
+def runTrace (locked slocked : Bool) (ser : Vec → Content) :
     List Label → Sys → List String → Nat → (Sys × List String × Option Nat)
   | [], s, acc, _ => (s, acc.reverse, none)
   | l :: ls, s, acc, i =>
-    match step locked snap s l with
-    | some s' => runTrace locked snap ls s' (stepName s l :: acc) (i + 1)
+    match step locked slocked ser s l with
+    | some s' => runTrace locked slocked ser ls s' (stepName s l :: acc) (i + 1)
     | none => (s, (stepName s l :: acc).reverse, some i)
+
+/-- chunk id standing for the serialisation of a vector that is not in the table (a mix of states) -/
+def MIXED : Nat := 999999999
+
+def ownerName : Option Owner → Json
+  | none => Json.null
+  | some .changer => Json.str "changer"
+  | some (.job j) => jnat j
 
 def handle (j : Json) : R Json := do
   let op ← getStr j "op"
   match op with
   | "run" =>
     let locked ← getBool j "locked"
-    let snaps ← (← getArr j "snaps").toList.mapM natsOf
+    let slocked ← getBool j "slocked"
+    let mem0 ← natsOf (← getObj j "mem0")
+    -- serialisation table: [[vector, chunk ids], ...]
+    let table ← (← getArr j "ser").toList.mapM fun e => do
+      match e with
+      | .arr #[v, c] => do pure ((← natsOf v), (← natsOf c))
+      | _ => throw "bad ser entry"
     let init ← match (← getObj j "init") with
       | .null => pure none
       | x => do pure (some (← natsOf x))
     let labels ← (← getArr j "labels").toList.mapM labelOf
-    let snap : Nat → Content := fun v => snaps.getD v []
-    let (s, names, blocked) := runTrace locked snap labels (initSys init) [] 0
-    let jobs := (List.range s.njobs).map fun i => Json.str (pcName (s.jobs i))
+    let ser : Vec → Content := fun v => (table.lookup v).getD [MIXED]
+    let (s, names, blocked) := runTrace locked slocked ser labels (initSys init mem0) [] 0
+    let jobs := (List.range s.njobs).map fun i => Json.str (pcName s.mem.length (s.jobs i))
     let temps := (List.range s.njobs).filterMap fun i =>
       (s.temps i).map fun c => Json.arr #[jnat i, jnats c]
     pure (Json.mkObj [
       ("blocked", jopt jnat blocked),
       ("target", jopt jnats s.target),
       ("temps", Json.arr temps.toArray),
-      ("ver", jnat s.ver),
+      ("mem", jnats s.mem),
+      ("changes", jnat (s.hist.length - 1)),
+      ("changing", Json.bool s.chg),
+      ("slock", ownerName s.slock),
       ("jobs", Json.arr jobs.toArray),
       ("crashed", Json.bool s.crashed),
       ("steps", Json.arr (names.map Json.str).toArray)])
